@@ -209,15 +209,37 @@ def parse_http_responses(data: bytes) -> Tuple[List[dict], bytes]:
             if b":" in ln:
                 k, v = ln.split(b":", 1)
                 headers[k.strip().lower().decode("latin1")] = v.strip().decode("latin1")
-        n = int(headers.get("content-length", "0") or 0)
+        start = head_end + 4
         if headers.get("transfer-encoding", "").lower() == "chunked":
-            # not produced by the accessory for the requests used here; treat as opaque
-            break
-        if len(data) < head_end + 4 + n:
-            break
-        body = data[head_end + 4 : head_end + 4 + n]
+            body = b""
+            pos = start
+            done = False
+            while True:
+                eol = data.find(b"\r\n", pos)
+                if eol < 0:
+                    break
+                try:
+                    size = int(data[pos:eol].split(b";")[0], 16)
+                except ValueError:
+                    break
+                if len(data) < eol + 2 + size + 2:
+                    break
+                body += data[eol + 2 : eol + 2 + size]
+                pos = eol + 2 + size + 2
+                if size == 0:
+                    done = True
+                    break
+            if not done:
+                break
+            end = pos
+        else:
+            n = int(headers.get("content-length", "0") or 0)
+            if len(data) < start + n:
+                break
+            body = data[start : start + n]
+            end = start + n
         msgs.append({"proto": first[0].decode("latin1"), "status": int(first[1]), "headers": headers, "body": body})
-        data = data[head_end + 4 + n :]
+        data = data[end:]
     return msgs, data
 
 
